@@ -435,9 +435,10 @@ class FuncAnalysis:
         n = self._ver.get(root, 0) + 1
         self._ver[root] = n
         new = ('mut', root, n)
-        for k, v in list(self.env.items()):
-            if isinstance(v, tuple) and (v == base or (v[0] == 'mut' and v[1] == root) or v == root):
-                self.env[k] = new
+        for env in [self.env] + list(getattr(self, '_env_stack', [])):
+            for k, v in list(env.items()):
+                if isinstance(v, tuple) and (v == base or (v[0] == 'mut' and v[1] == root) or v == root):
+                    env[k] = new
 
     def _emit(self, kind, node, **d):
         ev = Event(kind, len(self.events), getattr(node, 'lineno', 0), tuple(self._guards),
@@ -607,6 +608,8 @@ class FuncAnalysis:
         return None
 
     def _s_Return(self, s):
+        if getattr(self, '_inline_returns', None):
+            return self._s_Return_inline(s)
         v = self.ev(s.value) if s.value is not None else T.NONE
         self._emit('return', s, value=v)
         return 'return'
@@ -1500,6 +1503,104 @@ class FuncAnalysis:
         return ('comp', 'dict', ('kv', k, v), gens)
 
     # -- helpers the checker has never heard of ------------------------------------------------
+    def _inline_body(self, f, args, kws, node):
+        """Evaluate the body of a package-local helper that no rule or reference mentions IN PLACE (same
+        event stream, guards, loops, versions; parameters bound to the argument terms): moving statements
+        into a new helper - loops, stores, refusals included - leaves the effects of the caller unchanged.
+        -> (done, value term)"""
+        repo = self.repo
+        q, pre, skip = None, [], 0
+        if f[0] == 'g' and f[1] in repo.funcs and repo.funcs[f[1]].cls is None:
+            q = f[1]
+        elif f[0] == 'attr' and f[1] == T.V('self') and self.fi.cls is not None and (self.fi.cls + '.' + f[2]) in repo.funcs \
+                and 'self' in self.env and self.env.get('self') == T.V('self'):
+            q, skip = self.fi.cls + '.' + f[2], 1
+        elif f[0] == 'call' and f[1] == T.G('functools.partial') and f[2] and not f[3] and f[2][0][0] == 'g' \
+                and f[2][0][1] in repo.funcs and repo.funcs[f[2][0][1]].cls is None:
+            q, pre = f[2][0][1], list(f[2][1:])
+        if q is None or q.rsplit('.', 1)[1] in _known_names():
+            return False, None
+        stack = getattr(self, '_inline_stack', [])
+        if q == self.fi.qualname or q in stack or len(stack) >= 3:
+            return False, None
+        fi = repo.funcs[q]
+        a = fi.node.args
+        if fi.parent is not None or fi.node.decorator_list or a.vararg or a.kwarg \
+                or any(isinstance(x, (ast.Yield, ast.YieldFrom, ast.Await, ast.FunctionDef, ast.AsyncFunctionDef, ast.ClassDef,
+                                      ast.Global, ast.Nonlocal)) for x in ast.walk(fi.node) if x is not fi.node):
+            return False, None
+        pos = [x.arg for x in list(a.posonlyargs) + list(a.args)]
+        params = pos[skip:]
+        kwonly = [x.arg for x in a.kwonlyargs]
+        args = pre + list(args)
+        if any(x[0] == 'star' for x in args) or any(k[0] != 'kw' for k in kws) or len(args) > len(params):
+            return False, None
+        bound = dict(zip(params, args))
+        for k in kws:
+            if (k[1] not in params and k[1] not in kwonly) or k[1] in bound:
+                return False, None
+            bound[k[1]] = k[2]
+        defaults = {}
+        for arg, d in list(zip((list(a.posonlyargs) + list(a.args))[len(pos) - len(a.defaults):], a.defaults)) + \
+                [(x, d) for x, d in zip(a.kwonlyargs, a.kw_defaults) if d is not None]:
+            defaults[arg.arg] = d
+        for p in params + kwonly:
+            if p not in bound and p not in defaults:
+                return False, None
+        # swap the per-function state
+        saved = (self.env, self.module, self._locals, self._mutated, self._globals_decl, self._nonlocal_decl, self.closure,
+                 getattr(self, '_rest', []), getattr(self, '_pending_path_guards', 0))
+        self._inline_stack = stack + [q]
+        self._env_stack = getattr(self, '_env_stack', []) + [self.env]
+        self.module = fi.module
+        self.closure = {}
+        self.env = {}
+        for p in params + kwonly:
+            if p not in bound:
+                try:
+                    bound[p] = T.C(ast.literal_eval(defaults[p]))
+                except (ValueError, SyntaxError, TypeError):
+                    bound[p] = self.ev(defaults[p])
+        self.env = dict(bound)
+        if skip:
+            self.env[pos[0]] = T.V('self')
+        self._locals = _assigned_names(fi.node) | set(pos) | set(kwonly)
+        self._mutated = _mutated_names(fi.node)
+        self._globals_decl, self._nonlocal_decl = set(), set()
+        rets = []
+        self._inline_returns = getattr(self, '_inline_returns', []) + [rets]
+        base = len(self._guards)
+        self._inline_guard_base = getattr(self, '_inline_guard_base', []) + [base]
+        try:
+            st = self._block(fi.node.body)
+            residual = list(self._last_residual) if st is None else []
+        finally:
+            del self._guards[base:]
+            self._inline_guard_base = self._inline_guard_base[:-1]
+            self._inline_returns = self._inline_returns[:-1]
+            self._inline_stack = stack
+            self._env_stack = self._env_stack[:-1]
+            (self.env, self.module, self._locals, self._mutated, self._globals_decl, self._nonlocal_decl, self.closure,
+             self._rest, self._pending_path_guards) = saved
+        # value: the returns in order, each under its own conditions (relative to the call)
+        acc = T.NONE
+        for value, conds in reversed(rets):
+            if not conds:
+                acc = value
+            else:
+                c = conds[0] if len(conds) == 1 else T.nary('and', tuple(conds))
+                acc = T.ite(c, value, acc)
+        return True, acc
+
+    def _s_Return_inline(self, s):
+        v = self.ev(s.value) if s.value is not None else T.NONE
+        base = 0
+        # conditions pushed since the helper was entered
+        depth = getattr(self, '_inline_base_depths', [])
+        self._inline_returns[-1].append((v, [(c if p else T.not_(c)) for c, p, k in self._guards[self._inline_guard_base[-1]:]
+                                             if not k.endswith('raise')]))
+        return 'return'
+
     def _inline_unknown_helper(self, f, args, kws, node=None):
         """A call of a package-local, effect-free function (module function, method of the same class
         through self, or functools.partial of one) whose name no rule or reference mentions is replaced
@@ -1591,7 +1692,7 @@ class FuncAnalysis:
     def _canon_args(self, f, args, kws):
         """One spelling per call of a package-local function: keyword arguments that name the next
         positional parameters are passed positionally (f(a, y=b) == f(a, b))."""
-        if f[0] != 'g' or not kws or any(a[0] == 'star' for a in args):
+        if f[0] != 'g' or any(a[0] == 'star' for a in args) or any(k[0] != 'kw' for k in kws):
             return args, kws
         q = f[1]
         fi = self.repo.funcs.get(q)
@@ -1613,6 +1714,18 @@ class FuncAnalysis:
             k = byname.pop(params[len(args)])
             kws.remove(k)
             args.append(k[2])
+        # an argument that spells out the callee's own literal default is no argument: f(x, None) == f(x)
+        dflt = {}
+        allpos = (list(a.posonlyargs) + list(a.args))
+        for arg, d in list(zip(allpos[len(allpos) - len(a.defaults):], a.defaults)) + \
+                [(x, d) for x, d in zip(a.kwonlyargs, a.kw_defaults) if d is not None]:
+            try:
+                dflt[arg.arg] = T.C(ast.literal_eval(d))
+            except (ValueError, SyntaxError, TypeError):
+                pass
+        kws = [k for k in kws if not (k[1] in dflt and k[2] == dflt[k[1]])]
+        while args and len(args) <= len(params) and params[len(args) - 1] in dflt and args[-1] == dflt[params[len(args) - 1]]:
+            args.pop()
         return args, kws
 
     def _e_Call(self, n, stmt=False):
@@ -1653,6 +1766,9 @@ class FuncAnalysis:
             else:
                 kws.append(T.kw(k.arg, self.ev(k.value)))
         args, kws = self._canon_args(f, args, kws)
+        done, val = self._inline_body(f, args, kws, n)
+        if done:
+            return val
         if not stmt:
             inl = self._inline_unknown_helper(f, args, kws, n)
             if inl is not None:
